@@ -732,6 +732,430 @@ def law_checks_dist(ctx, fs, ex, thorough):
 
 
 # ---------------------------------------------------------------------------------------------
+# 2b. multi-call histories on SHARED argument tensors
+#
+# The property's laws relate several helpers evaluated on ONE support grid (exp(log-density) = density, log-cdf = log(cdf),
+# the density integrates / sums to the cdf and to one, the moments of the density are the stated mean and variance).  A caller
+# therefore hands the SAME tensor objects (support grid, parameter tensors) to a sequence of helpers.  Every value returned
+# anywhere in such a history must be the helper's value at the grid the caller built: judged (i) against float closed forms
+# evaluated at the original grid values, (ii) against a twin call on fresh copies of the original values, (iii) by the laws
+# between the results of the history (incl. quadrature of the density over the grid against the cdf at the panel edges, and
+# d cdf / d support = density by autograd).  An exception anywhere in the history is a finding of its own.
+
+SHARED = {
+    "Normal": {"support": ("pdf", "logpdf", "cdf", "logcdf"), "params": ("loc", "scale"),
+               "moments": {"mean": ("loc",), "variance": ("scale",)}},
+    "LogNormal": {"support": ("pdf", "logpdf", "cdf", "logcdf"), "params": ("loc", "scale"),
+                  "moments": {"mean": ("loc", "scale"), "variance": ("loc", "scale")}},
+    "Poisson": {"support": ("pmf", "logpmf", "cdf", "logcdf"), "params": ("rate",),
+                "moments": {"mean": ("rate",), "variance": ("rate",)}},
+}
+SHARED_DT = {"float64": torch.float64, "float32": torch.float32}
+SHARED_PARAM_KINDS = ("python-scalars", "0-d tensors", "same-shape tensors")
+SHARED_LAYOUTS = ("own", "strided-view", "expanded", "0-d")
+
+
+def _f32(v: float) -> float:
+    return float(torch.tensor(v, dtype=torch.float32))
+
+
+def shared_build(case):
+    """fresh argument objects of one history: (support, tensors to watch {name: tensor}, params {name: object})"""
+    dt = SHARED_DT[case["dtype"]]
+    grid, layout = case["grid"], case["layout"]
+    watch = {}
+    if layout == "own":
+        x = torch.tensor(grid, dtype=dt)
+        watch["support"] = x
+    elif layout == "strided-view":
+        base = torch.full((2 * len(grid) + 1,), 0.5, dtype=dt)
+        base[1::2] = torch.tensor(grid, dtype=dt)
+        x = base[1::2]
+        watch["support (the tensor the grid is a view of)"] = base
+    elif layout == "expanded":
+        base = torch.tensor(grid[0], dtype=dt)
+        x = base.expand(len(grid))
+        watch["support (the 0-d tensor the grid is expanded from)"] = base
+    else:  # 0-d
+        x = torch.tensor(grid[0], dtype=dt)
+        watch["support"] = x
+    if case.get("requires_grad"):
+        x.requires_grad_(True)
+    params = {}
+    for name, v in case["params"].items():
+        if case["param_kind"] == "python-scalars":
+            params[name] = float(v)
+        else:
+            params[name] = torch.tensor(v, dtype=dt)      # 0-d for a float, 1-d for a list
+            watch[name] = params[name]
+    return x, watch, params
+
+
+def _same_tensor(a: torch.Tensor, b: torch.Tensor) -> bool:
+    a, b = a.detach(), b.detach()
+    return a.shape == b.shape and bool(torch.all((a == b) | (torch.isnan(a) & torch.isnan(b))))
+
+
+def shared_oracle(dist: str, meth: str, x: float, par: dict) -> float:
+    """float closed forms, written from the textbook definitions (independent of the code under test)"""
+    if dist == "Poisson":
+        lam = par["rate"]
+        if meth in ("mean", "variance"):
+            return lam
+        lp = lambda k: k * math.log(lam) - lam - math.lgamma(k + 1)  # noqa: E731
+        if meth == "logpmf":
+            return lp(x)
+        if meth == "pmf":
+            return math.exp(lp(x))
+        c = math.fsum(math.exp(lp(j)) for j in range(0, int(math.floor(x)) + 1))
+        return c if meth == "cdf" else (math.log(c) if c > 0 else -math.inf)
+    mu, sg = par["loc"], par["scale"]
+    if meth == "mean":
+        return mu if dist == "Normal" else math.exp(mu + sg * sg / 2)
+    if meth == "variance":
+        return sg * sg if dist == "Normal" else math.expm1(sg * sg) * math.exp(2 * mu + sg * sg)
+    u = x if dist == "Normal" else math.log(x)
+    z = (u - mu) / sg
+    lpdf = -0.5 * z * z - math.log(sg) - 0.5 * math.log(2 * math.pi) - (0.0 if dist == "Normal" else u)
+    if meth == "logpdf":
+        return lpdf
+    if meth == "pdf":
+        return math.exp(lpdf)
+    c = 0.5 * math.erfc(-z / math.sqrt(2))
+    return c if meth == "cdf" else (math.log(c) if c > 0 else -math.inf)
+
+
+def _shared_close(meth: str, got: float, want: float, f32: bool, want_cdf: float | None = None) -> bool:
+    """does a returned value agree with the closed form (tolerances of the dtype the helper computed in)"""
+    if math.isnan(got) or math.isnan(want):
+        return math.isnan(got) and math.isnan(want)
+    rel = 5e-4 if f32 else 1e-9
+    if meth in ("pdf", "pmf", "mean", "variance"):
+        return abs(got - want) <= rel * max(abs(got), abs(want)) + (1e-30 if f32 else 1e-300)
+    if meth == "cdf":
+        return abs(got - want) <= (2e-6 if f32 else 1e-7)       # (torch's gammaincc is accurate to ~1e-9 only)
+    if meth == "logcdf":
+        # 0.5(1+erf) cancels in the lower tail: the closed form is compared where the cdf is not tiny; the tail is covered by
+        # the law logcdf = log(cdf) between the results of the history
+        if want_cdf is not None and want_cdf < 1e-3:
+            return True
+        return abs(got - want) <= (1e-4 if f32 else 1e-7)
+    if math.isinf(got) or math.isinf(want):
+        return got == want
+    return abs(got - want) <= rel * max(1.0, abs(want))
+
+
+def run_shared_history(case, want_details=False):
+    """executes one history on shared argument tensors; returns a list of (law, what, detail) violations"""
+    dist = case["dist"]
+    cls, info = DIST[dist], SHARED[dist]
+    f32dt = case["dtype"] == "float32"
+    # python-scalar parameters are converted to float32 tensors by the helpers: the arithmetic on them is single precision
+    f32 = f32dt or case["param_kind"] == "python-scalars"
+    x, watch, params = shared_build(case)
+    snap = {k: v.detach().clone() for k, v in watch.items()}
+    xs = [float(v) for v in x.detach().to(F64).reshape(-1)]           # the grid as the helpers were given it
+    n = len(xs)
+    seen = {}                                                          # parameter values as the helpers see them
+    for name, v in case["params"].items():
+        vals = list(v) if isinstance(v, list) else [v] * n
+        if case["param_kind"] == "python-scalars" or f32:
+            vals = [_f32(a) for a in vals]
+        seen[name] = vals + [vals[-1]] * (n - len(vals)) if len(vals) < n else vals
+    m = max(n, max(len(v) for v in seen.values()))
+    if n == 1 and m > 1:                                               # a 0-d support against vector parameters
+        xs = xs * m
+    par_at = lambda i: {k: v[i] for k, v in seen.items()}  # noqa: E731
+
+    out: list = []
+    steps: list = []            # (index, method, values | None)
+    overwritten: dict = {}      # watched tensor name -> (step index, method) of the first call after which it differs
+
+    def args_of(meth, xx, pp):
+        if meth in info["support"]:
+            return [xx] + [pp[k] for k in info["params"]]
+        return [pp[k] for k in info["moments"][meth]]
+
+    def flat(r, size):
+        v = r.detach().to(F64).reshape(-1) if isinstance(r, torch.Tensor) else torch.tensor([float(r)], dtype=F64)
+        v = [float(a) for a in v]
+        return v * size if len(v) == 1 else v
+
+    history = []
+    for i, meth in enumerate(case["sequence"]):
+        label = f"step {i + 1} ({dist}.{meth} after {history if history else 'nothing'})"
+        try:
+            r = getattr(cls, meth)(*args_of(meth, x, params))
+            vals = flat(r, m)
+        except Exception as e:  # noqa: BLE001
+            out.append(("raises", f"{label} raised {type(e).__name__}: {str(e)[:160]}", {"step": i + 1, "method": meth}))
+            steps.append((i, meth, None))
+            history.append(meth)
+            continue
+        for k, t in watch.items():
+            if k not in overwritten and not _same_tensor(t, snap[k]):
+                overwritten[k] = (i + 1, meth, [float(a) for a in snap[k].to(F64).reshape(-1)[:4]],
+                                  [float(a) for a in t.detach().to(F64).reshape(-1)[:4]])
+        steps.append((i, meth, vals))
+        history.append(meth)
+        if len(vals) != m:
+            out.append((meth, f"{label} returned {len(vals)} values for {m} grid points", {"step": i + 1, "method": meth}))
+            continue
+        # (i) closed form at the caller's grid, (ii) twin call on fresh copies of the same values
+        x2, _, p2 = shared_build(dict(case, requires_grad=False))
+        try:
+            twin = flat(getattr(cls, meth)(*args_of(meth, x2, p2)), m)
+        except Exception as e:  # noqa: BLE001
+            twin = None
+            out.append(("raises", f"{dist}.{meth} on a fresh copy of the arguments raised {type(e).__name__}: {str(e)[:160]}",
+                        {"step": i + 1, "method": meth}))
+        for j in range(m):
+            want = shared_oracle(dist, meth, xs[j], par_at(j))
+            wc = shared_oracle(dist, "cdf", xs[j], par_at(j)) if meth == "logcdf" else None
+            ok = _shared_close(meth, vals[j], want, f32, wc)
+            tw_ok = twin is None or close_rel(vals[j], twin[j], 1e-6 if f32dt else 1e-13)
+            if not (ok and tw_ok):
+                ow = "; ".join(f"`{k}` was overwritten during step {s} ({dist}.{mm}): first entries {b} -> {a}"
+                               for k, (s, mm, b, a) in overwritten.items()) or "no argument tensor was modified"
+                out.append((meth,
+                            f"{label} on the shared arguments: at grid point {j} (support={xs[j]!r}, {par_at(j)}) it returned {vals[j]!r}; "
+                            f"{'closed form' if not ok else 'twin call'} at that point: {want!r}"
+                            f"{'' if twin is None else f' (the same call on a fresh copy of the arguments returns {twin[j]!r})'}; {ow}",
+                            {"step": i + 1, "method": meth, "index": j, "observed": vals[j], "expected": want,
+                             "twin": None if twin is None else twin[j]}))
+                break
+
+    # (iii) laws between the results of the history
+    def every(meth):
+        return [(i, v) for i, mm, v in steps if mm == meth and v is not None and len(v) == m]
+    dens, ldens = info["support"][0], info["support"][1]
+    tol_e = 2e-4 if f32 else 1e-9
+    for (i, lv) in every(ldens):
+        for (k, pv) in every(dens):
+            for j in range(m):
+                e = math.exp(lv[j]) if lv[j] > -745 else 0.0
+                if not (abs(e - pv[j]) <= tol_e * max(abs(e), abs(pv[j])) + (1e-30 if f32 else 1e-300)):
+                    out.append(("exp_log", f"exp({dist}.{ldens}) of step {i + 1} = {e!r} ≠ {dist}.{dens} of step {k + 1} = {pv[j]!r} "
+                                f"at grid point {j} (support={xs[j]!r}, {par_at(j)}); sequence {case['sequence']}",
+                                {"steps": [i + 1, k + 1], "index": j}))
+                    break
+    for (i, lc) in every("logcdf"):
+        for (k, cv) in every("cdf"):
+            for j in range(m):
+                w = math.log(cv[j]) if cv[j] > 0 else -math.inf
+                if not (close_abs(lc[j], w, 1e-5 if f32 else 1e-12)):
+                    out.append(("logcdf", f"{dist}.logcdf of step {i + 1} = {lc[j]!r} ≠ log({dist}.cdf of step {k + 1}) = {w!r} "
+                                f"at grid point {j} (support={xs[j]!r}, {par_at(j)}); sequence {case['sequence']}",
+                                {"steps": [i + 1, k + 1], "index": j}))
+                    break
+    st = case.get("structure")
+    const = all(not isinstance(v, list) or len(set(v)) == 1 for v in case["params"].values())
+    means = [v[0] for _, v in every("mean")]
+    varis = [v[0] for _, v in every("variance")]
+    if st and const and n == m:
+        ti = (2e-4 if f32 else 1e-9) * st.get("tol_scale", 1.0)
+        if st["kind"] == "panels":
+            P, q = st["panels"], st["nodes"]
+            gx, gw = np.polynomial.legendre.leggauss(q)
+            edges, nodes = xs[:P + 1], xs[P + 1:]
+            wts = [gw[t] * (edges[p + 1] - edges[p]) / 2 for p in range(P) for t in range(q)]
+            for (i, pv) in every(dens):
+                cum, acc = [0.0], 0.0
+                for p in range(P):
+                    acc += math.fsum(wts[p * q + t] * pv[P + 1 + p * q + t] for t in range(q))
+                    cum.append(acc)
+                if abs(cum[-1] - 1.0) > ti:
+                    out.append(("integral", f"∫{dist}.pdf over the shared grid (step {i + 1}, {P} Gauss–Legendre panels from "
+                                f"{edges[0]!r} to {edges[-1]!r}) = {cum[-1]!r} ≠ 1; {par_at(0)}; sequence {case['sequence']}",
+                                {"step": i + 1, "integral": cum[-1]}))
+                for (k, cv) in every("cdf"):
+                    worst = max(range(P + 1), key=lambda p: abs(cum[p] - (cv[p] - cv[0])))
+                    if abs(cum[worst] - (cv[worst] - cv[0])) > ti:
+                        out.append(("integral", f"∫{dist}.pdf (step {i + 1}) from {edges[0]!r} to {edges[worst]!r} = {cum[worst]!r} but "
+                                    f"{dist}.cdf (step {k + 1}) gives cdf(b) − cdf(a) = {cv[worst] - cv[0]!r}; {par_at(0)}; "
+                                    f"sequence {case['sequence']}", {"steps": [i + 1, k + 1], "edge": worst}))
+                m1 = math.fsum(w * xv * pvv for w, xv, pvv in zip(wts, nodes, pv[P + 1:]))
+                for mean in means[:1]:
+                    m2 = math.fsum(w * (xv - mean) ** 2 * pvv for w, xv, pvv in zip(wts, nodes, pv[P + 1:]))
+                    tm = ti if dist == "Normal" else max(ti, 1e-7)     # the log-normal moments are truncated at loc + 12 scale
+                    bad_m = abs(m1 - mean) > tm * max(1.0, abs(mean), par_at(0)["scale"])
+                    bad_v = any(abs(m2 - var) > tm * max(1.0, abs(var)) for var in varis[:1])
+                    if bad_m or bad_v:
+                        out.append(("moments", f"{dist}: ∫x·pdf = {m1!r} (stated mean {mean!r}), ∫(x−mean)²·pdf = {m2!r} (stated variance "
+                                    f"{varis[:1]}) with the density of step {i + 1} on the shared grid; {par_at(0)}; sequence {case['sequence']}",
+                                    {"step": i + 1}))
+        else:  # counts 0..K-1 in order
+            for (i, pv) in every(dens):
+                tot = math.fsum(pv)
+                if abs(tot - 1.0) > ti:
+                    out.append(("integral", f"Σ_k {dist}.pmf over the shared grid 0..{n - 1} (step {i + 1}) = {tot!r} ≠ 1; {par_at(0)}; "
+                                f"sequence {case['sequence']}", {"step": i + 1, "total": tot}))
+                cum = list(itertools.accumulate(pv))
+                for (k, cv) in every("cdf"):
+                    worst = max(range(n), key=lambda p: abs(cum[p] - cv[p]))
+                    if abs(cum[worst] - cv[worst]) > max(ti, 2e-6 if f32 else 1e-7):
+                        out.append(("integral", f"Σ_(j≤{worst}) {dist}.pmf (step {i + 1}) = {cum[worst]!r} but {dist}.cdf (step {k + 1}) = "
+                                    f"{cv[worst]!r}; {par_at(0)}; sequence {case['sequence']}", {"steps": [i + 1, k + 1], "k": worst}))
+                m1 = math.fsum(a * b for a, b in zip(xs, pv))
+                for mean in means[:1]:
+                    m2 = math.fsum((a - mean) ** 2 * b for a, b in zip(xs, pv))
+                    if abs(m1 - mean) > 10 * ti * max(1.0, mean) or any(abs(m2 - var) > 10 * ti * max(1.0, var) for var in varis[:1]):
+                        out.append(("moments", f"{dist}: Σk·pmf = {m1!r} (stated mean {mean!r}), Σ(k−mean)²·pmf = {m2!r} (stated variance "
+                                    f"{varis[:1]}) with the pmf of step {i + 1} on the shared grid; {par_at(0)}; sequence {case['sequence']}",
+                                    {"step": i + 1}))
+    # d cdf / d support = density (autograd through the helper, on the same shared support tensor)
+    if case.get("requires_grad") and dist != "Poisson":
+        try:
+            c = cls.cdf(*args_of("cdf", x, params))
+            (g,) = torch.autograd.grad(c.sum(), x)
+            bc = len(flat(g, 1)) == 1 and m > 1          # one observation broadcast against m parameter sets: d Σ_j cdf_j / d x
+            g = flat(g, 1) if bc else flat(g, m)
+            for j in range(len(g)):
+                want = math.fsum(shared_oracle(dist, "pdf", xs[t], par_at(t)) for t in range(m)) if bc else \
+                    shared_oracle(dist, "pdf", xs[j], par_at(j))
+                if not _shared_close("pdf", g[j], want, f32):
+                    out.append(("dcdf", f"d {dist}.cdf / d support at grid point {j} (support={xs[j]!r}, {par_at(j)}) = {g[j]!r} by autograd after "
+                                f"the history {case['sequence']}, the density there is {want!r}", {"index": j}))
+                    break
+        except Exception as e:  # noqa: BLE001
+            out.append(("raises", f"{dist}.cdf on a support tensor that requires grad (to differentiate the cdf into the density), after "
+                        f"the history {case['sequence']}: raised {type(e).__name__}: {str(e)[:160]}", {"step": "autograd"}))
+    if want_details:
+        return out, {"overwritten": {k: {"step": s, "method": mm, "before": b, "after": a} for k, (s, mm, b, a) in overwritten.items()},
+                     "results": [(i + 1, mm, None if v is None else v[:4]) for i, mm, v in steps]}
+    return out
+
+
+def shared_cases(rng, thorough):
+    """histories: every parameter kind × support layout per distribution, both dtypes, two shuffled passes over all helpers"""
+    cases = []
+
+    def dyadic(vals):
+        return rng.choice(vals)
+
+    for dist in ("Normal", "LogNormal", "Poisson"):
+        info = SHARED[dist]
+        combos = [(pk, lay, False, False) for pk in SHARED_PARAM_KINDS for lay in ("own", "strided-view")]
+        combos += [("same-shape tensors", "own", True, False),        # per-point parameters
+                   ("same-shape tensors", "0-d", True, False),        # one observation against a vector of parameters
+                   ("same-shape tensors", "expanded", True, False),
+                   ("0-d tensors", "0-d", False, False),
+                   ("python-scalars", "own", False, True), ("0-d tensors", "own", False, True)]   # differentiable support
+        for _ in range(6 if not thorough else 40):
+            combos.append((rng.choice(SHARED_PARAM_KINDS), rng.choice(SHARED_LAYOUTS), rng.random() < 0.3, rng.random() < 0.2))
+        for (pk, lay, varied, grad) in combos:
+            if lay in ("0-d", "expanded") and pk != "same-shape tensors":
+                lay = lay if lay == "0-d" else "own"
+            if grad and (dist == "Poisson" or lay not in ("own", "0-d")):
+                grad = False
+            dtype = "float32" if rng.random() < 0.3 else "float64"
+            f32 = dtype == "float32"
+            structure = None
+            if dist == "Poisson":
+                lam = dyadic([0.5, 2.0, 7.5, 11.0]) if rng.random() < 0.5 else round(rng.uniform(0.2, 20.0), 3)
+                base = {"rate": lam}
+                K = int(lam + 12 * math.sqrt(lam) + 25)
+                grid = [float(k) for k in range(K)]
+                structure = {"kind": "counts"}
+            else:
+                if f32 or rng.random() < 0.5:
+                    mu = dyadic([0.0, -1.5, 2.0, 0.75, -0.25])
+                    sg = dyadic([0.25, 0.5, 1.0, 1.5, 3.0]) if dist == "Normal" else dyadic([0.25, 0.5, 0.75, 1.0])
+                else:
+                    mu = round(rng.gauss(0, 2), 4)
+                    sg = round(math.exp(rng.uniform(-3, 2)), 5) if dist == "Normal" else round(rng.uniform(0.15, 1.1), 4)
+                base = {"loc": mu, "scale": sg}
+                lo, hi, P, q = (-8.0, 8.0, 32, 8) if dist == "Normal" else (-8.0, 12.0, 80, 8)
+                gx, _ = np.polynomial.legendre.leggauss(q)
+                ez = [lo + (hi - lo) * p / P for p in range(P + 1)]
+                edges = [mu + sg * z for z in ez]
+                if dist == "LogNormal":
+                    edges = [math.exp(e) for e in edges]
+                nodes = [(edges[p] + edges[p + 1]) / 2 + (edges[p + 1] - edges[p]) / 2 * float(t) for p in range(P) for t in gx]
+                grid = edges + nodes
+                structure = {"kind": "panels", "panels": P, "nodes": q}
+            if lay in ("0-d", "expanded"):
+                npts = rng.randint(3, 9)
+                grid = [rng.choice(grid)] * (npts if lay == "expanded" else 1)
+                structure = None
+            else:
+                npts = len(grid)
+            if pk == "same-shape tensors":
+                if varied or lay in ("0-d", "expanded"):
+                    cnt = npts if lay != "0-d" else rng.randint(3, 9)
+                    params = {}
+                    for k, v in base.items():
+                        params[k] = [round(v + 0.25 * rng.uniform(-1, 1) * (base.get("scale", 1.0) if k == "loc" else v), 5) if k != "rate"
+                                     else round(v * rng.uniform(0.6, 1.6), 4) for _ in range(cnt)]
+                    structure = None if lay != "own" else structure
+                else:
+                    params = {k: [v] * npts for k, v in base.items()}
+            else:
+                params = dict(base)
+            meths = list(info["support"]) + list(info["moments"])
+            seq = rng.sample(meths, len(meths)) + rng.sample(meths, len(meths))
+            cases.append({"section": "dist-shared", "dist": dist, "dtype": dtype, "layout": lay, "param_kind": pk,
+                          "params": params, "grid": grid, "structure": structure, "requires_grad": grad, "sequence": seq})
+    return cases
+
+
+def shared_shrink(case, law):
+    """smaller history with the same kind of violation: two- or three-call sequences, then a single grid point"""
+    def fails(c):
+        try:
+            return any(l == law for l, _, _ in run_shared_history(c))
+        except Exception:  # noqa: BLE001
+            return False
+    best = case
+    seq = case["sequence"]
+    for sub in itertools.chain(itertools.permutations(dict.fromkeys(seq), 2), itertools.permutations(dict.fromkeys(seq), 3)):
+        c = dict(best, sequence=list(sub))
+        if fails(c):
+            best = c
+            break
+    if best["layout"] in ("own", "strided-view") and law not in ("integral", "moments"):
+        for j in (len(best["grid"]) // 3, 0, len(best["grid"]) - 1):
+            ps = {k: ([v[j]] if isinstance(v, list) and len(v) == len(best["grid"]) else v) for k, v in best["params"].items()}
+            c = dict(best, grid=[best["grid"][j]], params=ps, structure=None)
+            if fails(c):
+                best = c
+                break
+    return best
+
+
+def shared_argument_histories(ctx, fs, ex, thorough):
+    cases = shared_cases(ctx.rng, thorough)
+    ex.extra["shared_argument_histories"] = {
+        "cases": len(cases),
+        "rule": "the SAME support / parameter tensor objects are handed to two shuffled passes over every helper of the distribution; "
+                "every returned value is judged against the closed form at the original grid, a twin call on fresh copies, and the laws "
+                "between the results (exp/log, log-cdf, quadrature of the density against the cdf at panel edges and against the stated "
+                "moments, d cdf/d support = density by autograd)"}
+    for case in cases:
+        ex.count("shared_history", f"{case['dist']}:{case['param_kind']}:{case['layout']}:{case['dtype']}" + (":grad" if case["requires_grad"] else ""))
+        ex.nontriv(("shared", case["dist"], case["dtype"], case["layout"], case["param_kind"], tuple(case["sequence"]), repr(case["params"])[:80]))
+        out = run_shared_history(case)
+        ex.evaluations += len(case["sequence"]) * max(1, len(case["grid"]))
+        done = set()
+        for law, what, detail in out:
+            if law in done:
+                continue
+            done.add(law)
+            key = f"C20:spec:shared-args:{case['dist']}.{law}"
+            if fs.seen.get(("spec", key), 0) >= fs.cap:
+                fs.add("spec", key, what, {})
+                continue
+            small = shared_shrink(case, law)
+            if small is not case:
+                again = [(l, w, d) for l, w, d in run_shared_history(small) if l == law]
+                if again:
+                    what, detail = again[0][1], again[0][2]
+                else:
+                    small = case
+            fs.add("spec", key, what, dict(small, law=law, detail=detail))
+
+
+# ---------------------------------------------------------------------------------------------
 # 3. ISI
 
 def isi_views(raster: torch.Tensor, dt: Fraction, time_first: bool, n: int):
@@ -947,6 +1371,7 @@ def explore(ctx) -> Exploration:
             raise RuntimeError(f"driver protocol failure on `{line}`")
         judge(r)
     law_checks_dist(ctx, fs, ex, thorough)
+    shared_argument_histories(ctx, fs, ex, thorough)
     ex.exhaustive = False
     ex.rule = (
         "kernels: every interp_*/extrap_* function and every matching pair on boundary inputs (sample time 0, dt/4, dt/2 (tie), 3dt/4, dt; "
@@ -1014,6 +1439,18 @@ def replay(ctx, data) -> int:
             print("still failing:", f.what)
         print("agrees" if not hits else "DISAGREEMENT")
         return 1 if hits else 0
+    if sec == "dist-shared":
+        out, det = run_shared_history(case, want_details=True)
+        print(f"{case['dist']}: support {case['layout']} {case['dtype']} tensor of {len(case['grid'])} point(s), parameters {case['params']} as "
+              f"{case['param_kind']}, requires_grad={case.get('requires_grad', False)}; the same objects are handed to {case['sequence']}")
+        for step, meth, vals in det["results"]:
+            print(f"    step {step} {meth}: {'raised' if vals is None else vals}")
+        for k, v in det["overwritten"].items():
+            print(f"    argument {k} overwritten during step {v['step']} ({v['method']}): {v['before']} -> {v['after']}")
+        for law, what, _ in out[:4]:
+            print("still failing:", f"[{law}]", what)
+        print("DISAGREEMENT" if out else "agrees")
+        return 1 if out else 0
     if sec == "isi":
         r = case["raster_time_last"]
         rows, T = len(r), len(r[0])
@@ -1058,4 +1495,5 @@ def explore_impl_only(ctx) -> Exploration:
         ex = Exploration(rule="Lean driver unavailable; laws evaluated on the real code only")
         fs = Findings(ex)
         law_checks_dist(ctx, fs, ex, True)
+        shared_argument_histories(ctx, fs, ex, True)
         return ex
